@@ -282,6 +282,7 @@ impl FrameQueue {
         let mut last_send_time_ms = 0;
         let mut total_ack_size = 0;
         let mut rate_limited = false;
+        let mut newly_acked = false;
 
         let mut bitfield_size = 0;
         for i in (0 .. 32).rev() {
@@ -326,6 +327,7 @@ impl FrameQueue {
                 // Receiver has received this packet
                 if sent_frame.acked == false {
                     sent_frame.acked = true;
+                    newly_acked = true;
 
                     // Mark each fragment acknowledged and clear the list
                     let fragment_refs = std::mem::take(&mut sent_frame.fragment_refs);
@@ -350,8 +352,10 @@ impl FrameQueue {
             }
         }
 
-        // Add to pending feedback data
-        self.feedback_gen.put_ack_data(AckData { last_send_time_ms, total_ack_size, rate_limited });
+        // Add to pending feedback data (a repeated acknowledgement carries no new information)
+        if newly_acked {
+            self.feedback_gen.put_ack_data(AckData { last_send_time_ms, total_ack_size, rate_limited });
+        }
     }
 
     pub fn can_advance_transfer_window(&mut self, new_base_id: u32) -> bool {
